@@ -32,17 +32,19 @@ CONSTANT UInfo      \* [unit id -> [dim |-> <<int,...>>, fac |-> rational or <<>
 
 NDim == Len(UInfo[CHOOSE u \in DOMAIN UInfo : TRUE].dim)
 
-\* the exact-ratio family (factor to base dimensions m, g, s)
+\* the exact-ratio family (factor to base dimensions; dimension vector in the library's order m g s K C cd mol rad)
+DV(m, g, s_, rad) == <<m, g, s_, 0, 0, 0, 0, rad>>
 ExactUnits ==
-  [u \in {"m", "c:m", "k:m", "s", "m:s", "g", "k:g", "%"} |->
-     CASE u = "m"   -> [dim |-> <<1, 0, 0>>, fac |-> <<1, 1>>]
-       [] u = "c:m" -> [dim |-> <<1, 0, 0>>, fac |-> <<1, 100>>]
-       [] u = "k:m" -> [dim |-> <<1, 0, 0>>, fac |-> <<1000, 1>>]
-       [] u = "s"   -> [dim |-> <<0, 0, 1>>, fac |-> <<1, 1>>]
-       [] u = "m:s" -> [dim |-> <<0, 0, 1>>, fac |-> <<1, 1000>>]
-       [] u = "g"   -> [dim |-> <<0, 1, 0>>, fac |-> <<1, 1>>]
-       [] u = "k:g" -> [dim |-> <<0, 1, 0>>, fac |-> <<1000, 1>>]
-       [] u = "%"   -> [dim |-> <<0, 0, 0>>, fac |-> <<1, 100>>]]
+  [u \in {"m", "c:m", "k:m", "s", "m:s", "g", "k:g", "%", "rad"} |->
+     CASE u = "m"   -> [dim |-> DV(1, 0, 0, 0), fac |-> <<1, 1>>]
+       [] u = "c:m" -> [dim |-> DV(1, 0, 0, 0), fac |-> <<1, 100>>]
+       [] u = "k:m" -> [dim |-> DV(1, 0, 0, 0), fac |-> <<1000, 1>>]
+       [] u = "s"   -> [dim |-> DV(0, 0, 1, 0), fac |-> <<1, 1>>]
+       [] u = "m:s" -> [dim |-> DV(0, 0, 1, 0), fac |-> <<1, 1000>>]
+       [] u = "g"   -> [dim |-> DV(0, 1, 0, 0), fac |-> <<1, 1>>]
+       [] u = "k:g" -> [dim |-> DV(0, 1, 0, 0), fac |-> <<1000, 1>>]
+       [] u = "%"   -> [dim |-> DV(0, 0, 0, 0), fac |-> <<1, 100>>]
+       [] u = "rad" -> [dim |-> DV(0, 0, 0, 1), fac |-> <<1, 1>>]]
 
 -----------------------------------------------------------------------------
 \* exponent maps
